@@ -6,7 +6,8 @@
 its handlers and the ambiguity error; `allCodes` is what `mro` stores in `self.all[k]`; `fail` says
 that the computation raised (graphlib's `CycleError`) before touching any of the three caches.
 
-`writes` is the top-down publication loop (L343-359) as the list of dict writes it performs;
+`writes` is the top-down collection loop of `resolve` as the list of dict writes it prepares (applied in
+reverse order, see `ws`);
 `lookupTop` / `lookupNext` are `dict.__getitem__` + the branches of `__missing__` (L363-388).
 The `*Keys` fields only record which keys have been written, so that the driver can print the key
 sets; no definition reads them.
@@ -66,7 +67,9 @@ def applyW (st : St K F E) : List (W K F E) → St K F E
 
 variable (plan : K → Plan F E)
 
-def ws (k : K) : List (W K F E) := writes k (plan k).ranks []
+/-- the writes are collected top-down and applied bottom-up: the entry of the looked-up key itself is written
+    last (typemap.py, `for table, tup, value in reversed(writes)`) -/
+def ws (k : K) : List (W K F E) := (writes k (plan k).ranks []).reverse
 
 /-- `resolve(k)` for a plan that does not fail: `mro` records the candidate codes, then the ranks are published -/
 def resolve (k : K) (st : St K F E) : St K F E :=
@@ -112,6 +115,33 @@ def lookup (st : St K F E) : CKey K → St K F E × Res F E
 def run (st : St K F E) : List (CKey K) → St K F E
   | [] => st
   | ck :: rest => run (lookup plan st ck).1 rest
+
+/-- a resolution of `k` interrupted after `n` of its dict writes (`mro` has recorded `all[k]` before the first) -/
+def resolvePartial (k : K) (n : Nat) (st : St K F E) : St K F E :=
+  applyW { st with all := fun k' => if k' = k then some (plan k).allCodes else st.all k', allKeys := k :: st.allKeys }
+    ((ws plan k).take n)
+
+/-- the state left behind by a lookup whose resolution is interrupted (an exception raised asynchronously)
+    after `n` dict writes; a hit and a failing plan write nothing -/
+def lookupTopCut (st : St K F E) (k : K) (n : Nat) : St K F E :=
+  match st.cache (none, k) with
+  | some _ => st
+  | none => if (plan k).fail then st else resolvePartial plan k n st
+
+def lookupCut (st : St K F E) : CKey K → Nat → St K F E
+  | (none, k), n => lookupTopCut plan st k n
+  | (some c, k), n =>
+    match st.cache (some c, k) with
+    | some _ => st
+    | none => lookupTopCut plan st k n
+
+/-- a history of completed and interrupted lookups -/
+inductive LOp (K : Type) | look (ck : CKey K) | cut (ck : CKey K) (n : Nat)
+
+def runL (st : St K F E) : List (LOp K) → St K F E
+  | [] => st
+  | .look ck :: rest => runL (lookup plan st ck).1 rest
+  | .cut ck n :: rest => runL (lookupCut plan st ck n) rest
 
 /-- `MultiTypeMap.register` w.r.t. the caches: `self.clear()`, `self.errors.clear()`, `self.all.clear()`
     (typemap.py L209-211; the last two since the `fix:` for finding D2) -/
